@@ -15,7 +15,7 @@ CLAIMED = {
  'C10': seq('C10_Step (must-bump / never-bump / never-decrease / returned generation equals stored) as action property of the TLC sub-models and as monitor on every recorded step; each write is followed by the reads that expose its generation.', '7.10'),
  'C11': seq('API!Apply is the documented meaning; every recorded step over all modelled routes, versions 1.0-1.39, valid and invalid arguments, must equal Apply in status, error code, abstract body and complete next state.', '7.11'),
  'C12': seq('ConsumerIffAllocs as TLC invariant, C12_Step as action property; histories over 4 consumers at the four version bands under default and custom incomplete_consumer_* configuration, validated step by step.', '7.12'),
- 'C19': seq('C19_Inv / C19_Step on the names sub-model and on recorded histories of class/trait creation, rename and deletion; the projection compares the real os_traits / os_resource_classes vocabularies with the tables after every request.', '7.19'),
+ 'C19': seq('C19_Inv / C19_Step on the names sub-model and on recorded histories of class/trait creation, rename and deletion; the projection compares the real os_traits / os_resource_classes vocabularies with the tables after every request. Character level: spec/NameRules.tla (legal custom name over code points, answers of the four creating operations) model checked through MC_NameRules, and crafted / mutated names sent to the real service with every exchange judged by TLC (TraceNames.tla): no illegal name stored, no duplicate, existing names answered 204 / 409.', '7.19'),
 }
 CONC_NOTE = ('Trusted base: TLC, pv/sched.py (SQLAlchemy engine events park request threads at top-level transaction begin), '
              'pv/project.py, SQLite; transactions are scheduled one at a time (atomic and isolated, the premise stated by the property). '
@@ -60,10 +60,10 @@ SURF_NOTE = ('Trusted base: TLC, pv/surface.py (probe requests and presence pred
 CLAIMED.update({
  'C14': dict(engine='surface', category='exploration', design_ref='7.14', note=SURF_NOTE,
              technique='complete enumeration of the (route, method, version) and (feature, version) tables on the real service, each observation judged by TLC against spec/Surface.tla whose structural laws TLC checks (TraceSurface.tla)',
-             text='Exhaustive: every route and method of the routing table (plus unknown paths and undeclared methods) at all 40 microversions, latest, no header and out-of-range versions: expected disposition 404 / 405 / 406 / handled and the openstack-api-version and Vary headers; each of 48 versioned features (request fields, query parameters, response keys, statuses, headers) probed at all 40 versions must be present exactly in its documented window.'),
+             text='Exhaustive: every route and method of the routing table (plus unknown paths and undeclared methods) at all 40 microversions, latest, no header and out-of-range versions: expected disposition 404 / 405 / 406 / handled and the openstack-api-version and Vary headers; each of 56 versioned features (request fields, query parameters, response keys, statuses, headers) probed at all 40 versions must be present exactly in its documented window.'),
  'C16': dict(engine='surface', category='exploration', design_ref='7.16', note=SURF_NOTE,
              technique='complete enumeration of (operation, caller class, single-rule override) on the real service with table dumps around every probe, judged by TLC against the policy table of spec/Surface.tla (TraceSurface.tla)',
-             text='Exhaustive over the routing table x 7 caller classes (no credentials, no roles, reader of own / other project, member, admin, service) under the default policy and under every single-rule override to everyone / nobody: 401 without credentials, 403 for a caller the rule excludes (unless the request is 404/405/406/415 for every caller), never a success, no state change, no stored identifier in the body; allowed callers are never answered 401/403.'),
+             text='Exhaustive over the routing table x 7 caller classes (no credentials, no roles, reader of own / other project, member, admin, service) under the default policy and under every single-rule override to everyone / nobody: 401 without credentials, 403 for a caller the rule excludes (unless the request is 404/405/406/415 for every caller), never a success, no state change, no stored identifier in the body; allowed callers are never answered 401/403. GET /usages naming one to three projects (own / another, every order) x 5 caller classes x user_id / consumer_type variants: a caller passing only as reader of its own project never obtains the usages of another one.'),
 })
 CLAIMED.update({
  'C15': dict(engine='fuzz', category='exploration', design_ref='7.15',
